@@ -41,6 +41,7 @@ type c12ConnScn struct {
 	Bulk        int   `json:"bulk,omitempty"`          // every response of this connection carries this many extra bytes
 	ReadDelayMs int   `json:"read_delay_ms,omitempty"` // the client starts reading only this long after the trigger (-1: never)
 	Fresh       bool  `json:"fresh,omitempty"`         // opened (and its Pre sent) only after the scenario's quiet period, right before the trigger
+	Faulted     bool  `json:"faulted,omitempty"`       // (with Fresh) dialled while Accept fails with EMFILE (RLIMIT_NOFILE lowered for 40 ms): a transient accept error
 	Abort       bool  `json:"abort,omitempty"`         // once the server has read Pre, the client resets the connection (SO_LINGER 0 -> RST): every later write of the server to it fails
 }
 
@@ -74,6 +75,9 @@ type c12Obs struct {
 	ReturnedT  int64      `json:"returned_t"`   // ms; -1 = tars.Run had not returned when the child gave up
 	FinalInvk  []int      `json:"final_invoke"` // per connection: numInvoke 300 ms after Run returned (-1: connection no longer in the table)
 	FinalQueue int        `json:"final_queue"`
+	// after a transient accept error was injected the server stopped accepting / tars.Run returned although no shutdown
+	// had been requested
+	StoppedEarly string `json:"stopped_early,omitempty"`
 }
 
 type c12Logger struct {
@@ -230,6 +234,53 @@ func c12SignalReady(max time.Duration) bool {
 	}
 }
 
+// c12FaultDial connects to the server while its Accept fails: RLIMIT_NOFILE is lowered to the smallest unused
+// descriptor number for 40 ms, so accept4 returns EMFILE (a transient, non-timeout error) for the pending connection;
+// then the limit is restored and the accept loop is expected to take the connection. seen reports that the connection
+// was established but not in the server's table at the end of the window.
+func c12FaultDial(port int, inTable func(key string) bool) (net.Conn, bool, error) {
+	fd, err := syscall.Socket(syscall.AF_INET, syscall.SOCK_STREAM|syscall.SOCK_NONBLOCK|syscall.SOCK_CLOEXEC, 0)
+	if err != nil {
+		return nil, false, err
+	}
+	g := 0
+	for {
+		if _, _, e := syscall.Syscall(syscall.SYS_FCNTL, uintptr(g), syscall.F_GETFD, 0); e == syscall.EBADF {
+			break
+		}
+		g++
+	}
+	var old syscall.Rlimit
+	if err := syscall.Getrlimit(syscall.RLIMIT_NOFILE, &old); err != nil {
+		syscall.Close(fd)
+		return nil, false, err
+	}
+	low := old
+	low.Cur = uint64(g)
+	if err := syscall.Setrlimit(syscall.RLIMIT_NOFILE, &low); err != nil {
+		syscall.Close(fd)
+		return nil, false, err
+	}
+	cerr := syscall.Connect(fd, &syscall.SockaddrInet4{Port: port, Addr: [4]byte{127, 0, 0, 1}})
+	time.Sleep(40 * time.Millisecond)
+	key := ""
+	if sa, e := syscall.Getsockname(fd); e == nil {
+		if a4, ok := sa.(*syscall.SockaddrInet4); ok {
+			key = fmt.Sprintf("127.0.0.1:%d", a4.Port)
+		}
+	}
+	seen := key != "" && !inTable(key)
+	syscall.Setrlimit(syscall.RLIMIT_NOFILE, &old)
+	if cerr != nil && cerr != syscall.EINPROGRESS {
+		syscall.Close(fd)
+		return nil, false, cerr
+	}
+	f := os.NewFile(uintptr(fd), "c12-faulted-conn")
+	c, err := net.FileConn(f)
+	f.Close()
+	return c, seen, err
+}
+
 // c12SockQueues reads /proc/net/tcp: (local port, remote port) -> (tx_queue, rx_queue) of every IPv4 loopback socket.
 func c12SockQueues() (map[[2]int][2]int, bool) {
 	b, err := os.ReadFile("/proc/net/tcp")
@@ -281,7 +332,12 @@ func c12ChildMain(a Args) {
 			last = now
 		}
 	}()
+	var faultInjected int32
 	finish := func(e string) {
+		if atomic.LoadInt32(&faultInjected) == 1 && obs.TriggerT < 0 &&
+			(strings.HasPrefix(e, "server stopped") || strings.HasPrefix(e, "connections not registered")) {
+			obs.StoppedEarly, e = e, ""
+		}
 		if g := atomic.LoadInt64(&maxGap); e == "" && g >= 1000 {
 			e = fmt.Sprintf("stalled: this process was not scheduled for %d ms", g)
 		}
@@ -395,7 +451,24 @@ threads=1
 					finish("server stopped before the scenario began (listen failed?)")
 				default:
 				}
-				c, err := net.DialTimeout("tcp", addr, time.Second)
+				var c net.Conn
+				var err error
+				if scn.Conns[i].Faulted {
+					var seen bool
+					c, seen, err = c12FaultDial(port, func(key string) bool {
+						sn, ok := snapshot()
+						_, in := sn.Conns[key]
+						return ok && in
+					})
+					if err == nil && !seen {
+						finish("the accept fault was not injected (the connection was accepted inside the EMFILE window)")
+					}
+					if err == nil {
+						atomic.StoreInt32(&faultInjected, 1)
+					}
+				} else {
+					c, err = net.DialTimeout("tcp", addr, time.Second)
+				}
 				if err == nil {
 					conns[i] = c
 					keys[i] = c.LocalAddr().String()
@@ -433,6 +506,11 @@ threads=1
 			}
 			if n == want {
 				break
+			}
+			select {
+			case <-returned:
+				finish("server stopped: tars.Run returned before any shutdown was requested")
+			default:
 			}
 			if time.Now().After(deadline) || (scn.Signal == "EARLY" && ok && sn.ListenClosed >= 1 && n < want && time.Since(trig) > 700*time.Millisecond) {
 				finish("connections not registered by the server")
